@@ -61,10 +61,15 @@ func (d *Driver) getServerCapabilities() ([]byte, error) {
 
 		if err != nil {
 			cr <- &result{b: b, err: err}
+
+			return
 		}
 
 		if ctx.Err() != nil {
-			// timer expired, we're already done, nobody will be listening for our send anyway
+			// the timer expired just as the read completed: that is still a timeout, and the
+			// caller is waiting for exactly one result
+			cr <- &result{b: nil, err: context.DeadlineExceeded}
+
 			return
 		}
 
